@@ -75,7 +75,7 @@ def run(ctx):
         # every language paired with reference languages of each date order, both list orders: the
         # priority order decides which reading of an ambiguous numeric date wins
         for L0 in order:
-            for ref in ("en", "fr", "ja"):
+            for ref in ("en", "fr", "ja", "tl"):      # MDY, DMY, YMD and a language without an order of its own
                 if ref == L0:
                     continue
                 for langs in ([L0, ref], [ref, L0]):
@@ -86,7 +86,7 @@ def run(ctx):
                         names = [rng.choice(W["langs"][x]["locales"]) if W["langs"][x]["locales"] and rng.random() < 0.5 else x for x in langs]
                     lang_of = dict(zip(names, langs))
                     tried = list(names) if given else sorted(names, key=lambda x: pos[lang_of[x]])
-                    cases.append({"s": rng.choice(["01/02/2015", "03-04-2011", "05.06.2019 10:30"]), "langs": names, "given": given, "order": tried, "via": via,
+                    cases.append({"s": rng.choice(["01/02/2015", "03-04-2011", "05.06.2019 10:30", "12/31/2012", "31/12/2012", "2012/31/12", "12/31/2012 10:30"]), "langs": names, "given": given, "order": tried, "via": via,
                                   "defaults": [rng.choice(order)], "region": None, "settings": {"RELATIVE_BASE": BASE}, "lang0": L0})
     results = core.run_cases(ctx, "harness.lib", "call_c13", cases, chunk=20)
     records = []
